@@ -247,6 +247,39 @@ func genC06Chain(rt *rapid.T) c06ChainCase {
 		}
 		return true
 	}
+	// A validator with a fresh report leaves the bonded set at the end of one block (undelegation below one unit of
+	// consensus power) and re-enters it at the end of a later one (delegation): in both blocks the price must be computed
+	// from the validator set x/staking leaves behind at the END of the block. All ordinary ops.
+	bondFlip := func() {
+		if n < 2 {
+			return
+		}
+		x := 1 + gen.Uniform(rt, "bfval", n-1)
+		if len(c.Ops) > 0 && c.Ops[len(c.Ops)-1].K != "end" {
+			end(int(c.Cooldown))
+		}
+		c.Ops = append(c.Ops, c06Op{K: "activate", Val: x})
+		end(int(c.Cooldown))
+		for i := 0; i < n; i++ {
+			if i == x || gen.Chance(rt, "bfrep", 4, 5) {
+				c.Ops = append(c.Ops, genC06Submit(rt, nsig, i, c.Discrepancy))
+			}
+		}
+		if gen.Chance(rt, "bfsame", 1, 2) {
+			end(1)
+		}
+		c.Ops = append(c.Ops, c06Op{K: "undelegate", Val: x, Amt: gen.OneOf[int64](rt, "bfamt", 1, 2, 500_000), All: true})
+		end(1)
+		if gen.Chance(rt, "bfgap", 1, 3) {
+			end(1)
+		}
+		c.Ops = append(c.Ops, c06Op{K: "delegate", Val: x, Amt: gen.OneOf[int64](rt, "bfback", 1_000_000, 7_000_000, 7_000_000)})
+		if gen.Chance(rt, "bflate", 1, 3) {
+			c.Ops = append(c.Ops, genC06Submit(rt, nsig, (x+1)%n, c.Discrepancy))
+		}
+		end(1)
+		end(1)
+	}
 	// any other change of the feeds parameters
 	changeParams := func() {
 		g := &c06Gov{}
@@ -292,7 +325,14 @@ func genC06Chain(rt *rapid.T) c06ChainCase {
 	if gen.Chance(rt, "gscen", 2, 5) {
 		scenarioAt = gen.Uniform(rt, "gscenat", nops)
 	}
+	bondFlipAt := -1
+	if gen.Chance(rt, "bfscen", 3, 10) {
+		bondFlipAt = gen.Uniform(rt, "bfscenat", nops)
+	}
 	for i := 0; i < nops; i++ {
+		if i == bondFlipAt {
+			bondFlip()
+		}
 		if i == scenarioAt && lowerMaxInterval() {
 			continue
 		}
@@ -484,9 +524,13 @@ func runC06Chain(c c06ChainCase) *pbt.Verdict {
 		model[i] = map[string]c06Report{}
 	}
 	var pending []c06Op
-	curParams := fp              // the feeds parameters in force (statistics and building the next proposal only)
-	var proposals []*c06Proposal // in their voting period
-	feedSetFree := false         // a passed proposal changed which signals qualify as current feeds
+	curParams := fp               // the feeds parameters in force (statistics and building the next proposal only)
+	var proposals []*c06Proposal  // in their voting period
+	prevBonded := make([]bool, n) // bonded at the end of the previous block
+	for i := range prevBonded {
+		prevBonded[i] = true
+	}
+	feedSetFree := false // a passed proposal changed which signals qualify as current feeds
 	nontrivial := false
 	stat := map[string]int64{}
 	classes := map[string]bool{}
@@ -744,9 +788,16 @@ func runC06Chain(c c06ChainCase) *pbt.Verdict {
 				case !isBonded[i]:
 					stat["ignored_not_bonded"]++
 					classes["ignored-not-bonded"] = true
+					if prevBonded[i] && (activeBefore[i] || activated[i]) {
+						classes["fresh-reporter-left-bonded-set-in-this-block"] = true
+					}
 				case !(activeBefore[i] || activated[i]):
 					stat["ignored_inactive"]++
 					classes["ignored-inactive"] = true
+				}
+				if fresh && isBonded[i] && !prevBonded[i] && (activeBefore[i] || activated[i]) {
+					classes["fresh-reporter-entered-bonded-set-in-this-block"] = true
+					stat["fresh_reporter_entered_bonded_set"]++
 				}
 				if fresh && r.ts == now-feed.Interval {
 					classes["freshness-boundary"] = true
@@ -889,6 +940,7 @@ func runC06Chain(c c06ChainCase) *pbt.Verdict {
 				classes["status-boundary"] = true
 			}
 		}
+		copy(prevBonded, isBonded)
 		return true
 	}
 
